@@ -48,12 +48,8 @@ def run(ctx: Ctx):
     col.ob("G16", "S2", f"{rel}::_string_matching::norm-only-on-request",
            all(__import__("sa.astutil", fromlist=["under_flag"]).under_flag(guards_of(pm, n), "norm", True) for n in divs),
            "a division by the reference length happens without norm=True", rel, f.line)
-    # lengths: include_eos adds exactly one, taken back when the sequence has no eos
-    plus = [n for n in own_nodes(f.node) if isinstance(n, ast.Assign) and u(n.value) in (f"{RL} + 1", f"{HL} + 1")
-            and u(n.targets[0]) == u(n.value.left)]
-    col.ob("G16", "S2", f"{rel}::_string_matching::include-eos-adds-one", sorted(u(n.targets[0]) for n in plus) == sorted([HL, RL])
-           and all(_uflag(guards_of(pm, n), "include_eos", True) for n in plus),
-           "include_eos does not add exactly one to both the reference and the hypothesis lengths", rel, f.line)
+    # lengths: include_eos adds exactly one where there is an eos - as a table (props/string_common.py::length_table)
+    SC.length_table(ctx, "S2")
     # ---- S4 prefix form: the padding value is the last thing written -------------------------------------------
     from sa.defuse import ReachingDefs
     from sa.model import AnalysisError
